@@ -14,6 +14,7 @@ action; direction 0 = clockwise, 1 = anticlockwise, 2 = half turn.
 -/
 import JumanjiModel.Env.RubiksCube.General
 import JumanjiModel.Env.RubiksCube.Tables
+import JumanjiModel.Env.RubiksCube.BoundsLemmas
 open Jm Jx RubiksCube
 
 namespace Props.C17
@@ -237,3 +238,35 @@ theorem rubik_obs_faithful (cfg : Cfg) (s : State) (a : Int × Int × Int) :
     (step cfg s a).2.obs = observe (step cfg s a).1 ∧
     observe (step cfg s a).1 = ⟨(step cfg s a).1.cube, (step cfg s a).1.stepCount⟩ := ⟨step_obs cfg s a, rfl⟩
 end Props.C12
+
+namespace Props.C01
+open PzB
+/-- the observation returned by `reset` (ALL cube sizes; the scramble is any sequence of draws of the action space; time
+limit ≥ 0): every leaf listed in `obsBounds cfg` is present and within its interval: `cube` ∈ [0, 5],
+`step_count` ∈ [0, time_limit] -/
+theorem rubiks_cube_reset_obs_in_bounds (cfg : Cfg) (hT : 0 ≤ cfg.timeLimit) (scr : List Move)
+    (hs : ∀ m ∈ scr, legal cfg.n m) :
+    ObsInBounds (obsBounds cfg)
+      (obsLeaves (observe (genState cfg.n (scr.map (fun m => flattenAction cfg.n m.act))))) :=
+  RubiksCube.reset_obs_in_bounds cfg hT scr hs
+
+/-- the same for `step` (ALL sizes), for every `(6, n, n)` cube whose stickers are colours 0..5 and every move of the action
+space, including the terminal step; the time limit has not been reached before the step (`0 ≤ step_count < time_limit`).
+Uses the conservation of the sticker multiset (C07). -/
+theorem rubiks_cube_step_obs_in_bounds (cfg : Cfg) (s : State) (hc : Shaped cfg.n s.cube) (m : Move) (hm : legal cfg.n m)
+    (h : ColoursInRange s.cube) (hs : 0 ≤ s.stepCount ∧ s.stepCount < cfg.timeLimit) :
+    ObsInBounds (obsBounds cfg) (obsLeaves (step cfg s m.act).2.obs) :=
+  RubiksCube.step_obs_in_bounds cfg s hc m hm h hs
+
+/-- shape and colour range hold after `reset` and are preserved by every move of the action space -/
+theorem rubik_coloursInRange_invariant (cfg : Cfg) :
+    (∀ scr : List Move, (∀ m ∈ scr, legal cfg.n m) →
+      ColoursInRange (genState cfg.n (scr.map (fun m => flattenAction cfg.n m.act))).cube ∧
+      Shaped cfg.n (genState cfg.n (scr.map (fun m => flattenAction cfg.n m.act))).cube) ∧
+    (∀ (s : State) (m : Move), Shaped cfg.n s.cube → legal cfg.n m → ColoursInRange s.cube →
+      ColoursInRange (step cfg s m.act).1.cube ∧ Shaped cfg.n (step cfg s m.act).1.cube) :=
+  ⟨fun scr hs => RubiksCube.scramble_ok cfg.n scr hs,
+   fun s m hc hm h => ⟨RubiksCube.step_coloursInRange cfg s hc m hm h, RubiksCube.step_shaped cfg s hc m hm⟩⟩
+
+example : ColoursInRange (goal 3) ∧ Shaped 3 (goal 3) := ⟨by decide, shaped_goal 3⟩
+end Props.C01
